@@ -487,6 +487,7 @@ impl PG<'_> {
         match self.r.below(10) {
             0 => rand_tree(self.r, 5, 6, 20),
             1 => int_atom(self.r.range(-300, 300)),
+            2 if self.r.chance(1, 4) => atom_json(*self.r.pick(&[&[0u8][..], &[0, 0][..], &[0xff, 0xff][..], &[0, 0, 1][..]])),
             2 => int_atom(self.r.range(0, 40)),
             3 => {
                 let bits = self.r.below(40) as u32;
@@ -769,7 +770,10 @@ impl PG<'_> {
                 e2[0] &= 0x7f;
                 let mn = 1 + self.r.below(4) as usize;
                 let mut m = self.r.bytes(mn);
-                if m.iter().all(|x| *x == 0) { m[0] = 7; }
+                if self.r.chance(1, 6) {
+                    // zero, spelled in every way
+                    m = self.r.pick(&[&[][..], &[0u8][..], &[0, 0][..], &[0, 0, 0][..]]).to_vec();
+                }
                 list_json(&[atom_json(&[60]), q(self.value()), q(atom_json(&e2)), q(atom_json(&m))])
             }
             1 => {
@@ -1288,6 +1292,7 @@ fn main() {
                     "C07" if pg.r.chance(1, 2) => pg.restrict_expr(depth),
                     "C03" if pg.r.chance(1, 4) => pg.restrict_expr(depth),
                     "C30" if pg.r.chance(1, 4) => pg.restrict_expr(depth),
+                    "C25" if pg.r.chance(1, 4) => pg.restrict_expr(depth),
                     "C03" if pg.r.chance(1, 6) => pg.crypto_expr(),
                     "C13" if pg.r.chance(1, 2) => pg.alloc_expr(),
                     "C08" if pg.r.chance(1, 4) && !secp.is_empty() => {
